@@ -35,14 +35,19 @@ def _lazy_children(lf):
     return out
 
 
-def check_output(v, case, lazy_p, eager_p, llog, elog, out, K, ctx, use_dag):
+class _Boom(Exception):
+    pass
+
+
+def check_output(v, case, lazy_p, eager_p, llog, elog, out, K, ctx, use_dag, prefix=""):
     from pipefunc import PipeFunc
     from pipefunc.lazy import construct_dag
     import networkx as nx
 
     w = dict(case=daggen.describe(case), output=out, kwargs=K, ctx=ctx, construct_dag=use_dag)
+    bad = v.bad if ctx != "after-raised-context" else (lambda sig, msg, **k: v.bad(sig + "/after-raised-context", msg, **k))
     try:
-        exp = daggen.ref_eval(case, out, K)
+        exp = daggen.ref_eval(case, out, K, prefix=prefix)
     except daggen.Missing:
         return
     if set(K) - exp["used"]:
@@ -50,6 +55,7 @@ def check_output(v, case, lazy_p, eager_p, llog, elog, out, K, ctx, use_dag):
     probes.log_clear(llog)
     probes.log_clear(elog)
     dag = None
+    strip = lambda n: n[len(prefix):] if prefix and n.startswith(prefix) else n  # noqa: E731
     try:
         with quiet():
             if use_dag:
@@ -58,14 +64,14 @@ def check_output(v, case, lazy_p, eager_p, llog, elog, out, K, ctx, use_dag):
             else:
                 r = lazy_p(out, **K)
     except Exception as e:  # noqa: BLE001
-        v.bad(exc_sig(e, "lazy-call"), f"lazy call raised: {exc_msg(e)}", **w)
+        bad(exc_sig(e, "lazy-call"), f"lazy call raised: {exc_msg(e)}", **w)
         return
     v.count("lazy_calls")
     before = probes.log_read(llog)
     if before:
-        v.bad("invoked-before-evaluate", f"{[c['f'] for c in before]} invoked before evaluate()", **w)
+        bad("invoked-before-evaluate", f"{[c['f'] for c in before]} invoked before evaluate()", **w)
     if not hasattr(r, "evaluate"):
-        v.bad("not-deferred", f"lazy pipeline returned {type(r).__name__} without evaluate()", **w)
+        bad("not-deferred", f"lazy pipeline returned {type(r).__name__} without evaluate()", **w)
         return
     try:
         with quiet():
@@ -74,25 +80,25 @@ def check_output(v, case, lazy_p, eager_p, llog, elog, out, K, ctx, use_dag):
             got3 = r.evaluate()
             eager = eager_p(out, **K)
     except Exception as e:  # noqa: BLE001
-        v.bad(exc_sig(e, "evaluate"), f"evaluate()/eager call raised: {exc_msg(e)}", **w)
+        bad(exc_sig(e, "evaluate"), f"evaluate()/eager call raised: {exc_msg(e)}", **w)
         return
     norm = lambda x: tuple(x) if isinstance(x, (list, tuple)) else x  # noqa: E731
     if norm(got) != norm(exp["value"]) or norm(got) != norm(eager):
-        v.bad("value", f"evaluate()={got!r:.200} eager={eager!r:.200} reference={exp['value']!r:.200}", **w)
+        bad("value", f"evaluate()={got!r:.200} eager={eager!r:.200} reference={exp['value']!r:.200}", **w)
     if norm(got2) != norm(got) or norm(got3) != norm(got):
-        v.bad("value:repeat-evaluate", "repeated evaluate() returned a different value", **w)
-    calls = [c["f"] for c in probes.log_read(llog)]
+        bad("value:repeat-evaluate", "repeated evaluate() returned a different value", **w)
+    calls = [strip(c["f"]) for c in probes.log_read(llog)]
     extra, miss = multiset_diff(calls, exp["calls"])
     v.count("evaluations_compared")
     if extra or miss:
         kind = "duplicate-call" if extra and not miss and set(extra) <= set(exp["calls"]) else "calls"
-        v.bad(f"{kind}", f"after 3x evaluate(): extra={extra} missing={miss}", **w)
+        bad(f"{kind}", f"after 3x evaluate(): extra={extra} missing={miss}", **w)
     if dag is None:
         return
     v.count("task_graphs_checked")
     g = dag.graph
     if not nx.is_directed_acyclic_graph(g):
-        v.bad("dag:cycle", "recorded task graph has a cycle", **w)
+        bad("dag:cycle", "recorded task graph has a cycle", **w)
         return
     # (1) edges == producer->consumer pairs read off the deferred objects themselves
     ids = {id(lf): nid for nid, lf in dag.mapping.items()}
@@ -102,23 +108,23 @@ def check_output(v, case, lazy_p, eager_p, llog, elog, out, K, ctx, use_dag):
             if id(ch) in ids:
                 want.add((ids[id(ch)], nid))
             else:
-                v.bad("dag:unregistered-node", "a deferred argument is not a node of the task graph", **w)
+                bad("dag:unregistered-node", "a deferred argument is not a node of the task graph", **w)
     if set(g.edges) != want:
-        v.bad("dag:edges-vs-deferred-objects", f"edges {sorted(g.edges)} != dependencies of deferred objects {sorted(want)}", **w)
+        bad("dag:edges-vs-deferred-objects", f"edges {sorted(g.edges)} != dependencies of deferred objects {sorted(want)}", **w)
     if set(g.nodes) != set(dag.mapping):
-        v.bad("dag:nodes-vs-mapping", "graph nodes differ from mapping keys", **w)
+        bad("dag:nodes-vs-mapping", "graph nodes differ from mapping keys", **w)
     # (2) contract picker nodes; compare with the reference DAG restricted to needed functions
     label = {}
     for nid, lf in dag.mapping.items():
         if isinstance(lf.func, PipeFunc):
-            label[nid] = lf.func.__name__
+            label[nid] = strip(lf.func.__name__)
     for nid, lf in dag.mapping.items():
         if nid not in label:
             preds = [p for p in g.predecessors(nid)]
             if len(preds) == 1 and preds[0] in label:
                 label[nid] = label[preds[0]]
             else:
-                v.bad("dag:unknown-node", f"node {nid} ({lf!r:.80}) is neither a function nor a picker of one", **w)
+                bad("dag:unknown-node", f"node {nid} ({lf!r:.80}) is neither a function nor a picker of one", **w)
                 return
     got_edges = {(label[a], label[b]) for a, b in g.edges if label[a] != label[b]}
     names = [label[n] for n, lf in dag.mapping.items() if isinstance(lf.func, PipeFunc)]
@@ -132,10 +138,42 @@ def check_output(v, case, lazy_p, eager_p, llog, elog, out, K, ctx, use_dag):
                 ref_edges.add((pr["name"], n))
     v.count("dag_edges_compared", len(ref_edges))
     if got_edges != ref_edges:
-        v.bad("dag:edges-vs-reference", f"contracted edges {sorted(got_edges)} != reference {sorted(ref_edges)}", **w)
+        bad("dag:edges-vs-reference", f"contracted edges {sorted(got_edges)} != reference {sorted(ref_edges)}", **w)
     extra, miss = multiset_diff(names, exp["calls"])
     if extra or miss:
-        v.bad("dag:nodes-vs-reference", f"function nodes: extra={extra} missing={miss}", **w)
+        bad("dag:nodes-vs-reference", f"function nodes: extra={extra} missing={miss}", **w)
+
+
+def after_raised_context(v, case, lazy_p, llog, elog, scratch, rng, explicit_defaults):
+    from pipefunc.lazy import construct_dag
+
+    outs = [o for o in daggen.all_outputs(case) if daggen.needed_roots(case, o)]
+    if not outs:
+        return
+    out = rng.choice(outs)
+    K = {r: f"v_{r}" for r in daggen.needed_roots(case, out)}
+    how = rng.choice(["body-raises-after-call", "call-raises-missing-argument"])
+    try:
+        with quiet():
+            with construct_dag():
+                lazy_p(out, **K)
+                if how == "body-raises-after-call":
+                    raise _Boom
+                lazy_p(out)
+                raise _Boom
+    except Exception:  # noqa: BLE001  (leaving the block by an exception is the point)
+        pass
+    zl, ze = probes.new_log(scratch, "lazyZ"), probes.new_log(scratch, "eagerZ")
+    try:
+        with quiet():
+            lazy_z = daggen.build_pipeline(case, log=zl, prefix="Z", pipeline_kwargs={"lazy": True}, explicit_defaults=explicit_defaults)
+            eager_z = daggen.build_pipeline(case, log=ze, prefix="Z", explicit_defaults=explicit_defaults)
+    except Exception as e:  # noqa: BLE001
+        v.bad(exc_sig(e, "refused-construct"), f"valid DAG refused: {exc_msg(e)}", case=daggen.describe(case))
+        return
+    v.count("after_raised_context:" + how)
+    for use_dag in (False, True, False):
+        check_output(v, case, lazy_z, eager_z, zl, ze, out, K, "after-raised-context", use_dag, prefix="Z")
 
 
 def cross_context(v, case, lazy_p, llog, out1, K1, out2, K2, root, first_in_dag):
@@ -214,6 +252,11 @@ def run_case(desc):
                     check_output(v, case, lazy_p, eager_p, llog, elog, out, K2, "intermediate", rng.random() < 0.5)
                 if isinstance(out, str) and len(daggen.needed_funcs(case, [out])) >= 2:
                     keys.append(daggen.signature(case) + "|" + out)
+            # a construct_dag() block left by an exception must not influence later lazy calls: a twin pipeline
+            # (same structure and output names, other functions) called afterwards with the same arguments, outside
+            # any context and inside a new one, must still evaluate to ITS eager result with exactly-once calls
+            if i % 3 == 0:
+                after_raised_context(v, case, lazy_p, llog, elog, scratch, rng, explicit_defaults=(i % 4 == 2))
             # an earlier deferred result as input value of a later lazy call
             singles = [o for o in daggen.all_outputs(case)]
             for _ in range(2):
